@@ -4,6 +4,15 @@
 // accepted, in --test mode AND in a normal start, and a verify error stops the start.  The statements are extracted as a
 // block (T14) and compiled verbatim; listeners / connectors are heap-free stubs with symbolic verify outcomes.
 #![allow(dead_code, unused_variables, unused_macros, static_mut_refs, unused_imports, unused_mut)]
+// `tracing::level!(..)` written with its path by an edit keeps compiling (log statements have no effect on the checks)
+pub mod tracing {
+    macro_rules! trace { ($($t:tt)*) => { () } }
+    macro_rules! debug { ($($t:tt)*) => { () } }
+    macro_rules! info { ($($t:tt)*) => { () } }
+    macro_rules! warn_ { ($($t:tt)*) => { () } }
+    macro_rules! error { ($($t:tt)*) => { () } }
+    pub(crate) use {trace, debug, info, warn_ as warn, error};
+}
 macro_rules! println { ($($t:tt)*) => { () } }
 pub const N: usize = 2;
 #[derive(Clone, Copy, Debug)] pub struct Terminator(pub u8);
